@@ -539,6 +539,14 @@ fn controller(world: World, obs: SharedObs) -> Result<(), Violation> {
             format!("cycle {cycle} of the command-free run executed {executed} statement/loop points but none reached the debug hook: the debugger is no longer attached (per cycle (seen, executed): {coverage:?})"),
         ));
     }
+    // every statement the interpreter executes must reach the hook WITH its source location: a statement without
+    // one can be neither a breakpoint nor the "very next statement" a step-in stops at
+    if let Some((k, e)) = probe::snapshot().iter().enumerate().find(|(_, e)| loc_of(e).is_none()) {
+        return Err(Violation::new(
+            "hook/statement-without-location",
+            format!("entry {k} of the command-free run reached the debug hook without a source location (depth {}): the statement is invisible to breakpoints and steps", e.depth),
+        ));
+    }
     let twin_res = Arc::new(TwinResult { trace: probe::snapshot(), state: world::dump_storage(&twin), results });
     drop(twin);
     let tmap = thread_map(&twin_res.trace, &threads);
